@@ -2,25 +2,36 @@
 ENGINES = {
     "conf": dict(
         path="harness/conf.go harness/conf_gen.go coq/Conf coq/Oracles/ConfCheck.v coq/Props/C15.v",
-        about="Gallina model of configvalidator.go (all check* functions and the mutations of Validate) and of the configuration load path (queue creation, ACL/resource/template parsing, placement rule construction, ugm limits, partition update); WF predicate of the documented hierarchy rules; correspondence through vm_compute on generated YAML documents",
-        n=dict(quick=350, thorough=1000), shards=dict(quick=1, thorough=6),
+        about="Gallina model of configvalidator.go (all check* functions and the mutations Validate performs) and of the configuration load path (queue creation, ACL / resource / template parsing, placement rule construction, ugm limits, update of a running partition, partition removal); WF predicate of the documented hierarchy rules (11 conjuncts); validate_sound / validate_loadable / validate_perm; correspondence through vm_compute on generated YAML documents (validated 3 times + 2 permuted renderings, loaded into a new scheduler and as a reload)",
+        n=dict(quick=250, thorough=1000), shards=dict(quick=1, thorough=6),
         kinds={
             1: dict(cls="corr", props=["C15"], what="model Validate and configs.LoadSchedulerConfigFromByteArray disagree (verdict, error class or validated configuration)"),
-            5: dict(cls="corr", props=["C15"], what="model Load and the observed load (new scheduler / reload) disagree"),
-            2: dict(cls="oracle", props=["C15"], what="accepted configuration violates a documented hierarchy rule (WF)"),
+            5: dict(cls="corr", props=["C15"], what="model Load and the observed load (new scheduler / reload of a running one) disagree"),
+            2: dict(cls="oracle", props=["C15"], what="accepted configuration violates a documented hierarchy rule (WF conjunct fails on the configuration the implementation returned)"),
             3: dict(cls="oracle", props=["C15"], what="loading an accepted configuration failed, panicked, hung or left the scheduler without placement rules"),
             4: dict(cls="oracle", props=["C15"], what="validation verdict changed under permutation of map entries / rendering order / repeated run"),
-            11: dict(cls="known", props=["C15"], finding="C15-limit-wildcard-ancestor", what="limit above an ancestor's wildcard limit"),
-            12: dict(cls="known", props=["C15"], finding="C15-fixed-rule-offroot", what="fixed rule rootx"),
+            11: dict(cls="known", props=["C15"], finding="C15-limit-wildcard-ancestor", what="limit above an ancestor's wildcard limit while another ancestor names the user"),
+            12: dict(cls="known", props=["C15"], finding="C15-fixed-rule-offroot", what="fixed rule whose queue starts with root outside the hierarchy"),
             13: dict(cls="known", props=["C15"], finding="C15-rules-unbuildable", what="placement rules the placement manager cannot build"),
-            14: dict(cls="known", props=["C15"], finding="C15-partition-removal-deadlock", what="reload dropping a partition hangs"),
+            14: dict(cls="known", props=["C15"], finding="C15-partition-removal-deadlock", what="reload dropping a partition never returns"),
         },
     ),
 }
 
 PROPS = {
-    "C15": dict(engines=["conf"], props_file="Props/C15.v", checkers=["Oracles/ConfCheck.v"],
-                coq_scan=["Conf", "Oracles/ConfCheck.v", "Props/C15.v"], level="proof",
-                manifest=dict(category="proof", text="TBD", note="TBD", technique="Coq proof over a Gallina model of the validator and loader + model/implementation correspondence"),
-                assumptions=[]),
+    "C15": dict(
+        engines=["conf"], props_file="Props/C15.v", checkers=["Oracles/ConfCheck.v"],
+        coq_scan=["Conf", "Oracles/ConfCheck.v", "Props/C15.v"], level="proof",
+        explanation="theorems are about the Gallina model of configvalidator.go and of the load path; the model is tied to the code by the correspondence run (verdict, error class, validated configuration, load result of a new and of a running scheduler) and the oracles (WF, loadable, determinism) are evaluated on what the implementation returned",
+        manifest=dict(
+            category="proof",
+            text="Coq theorems over a Gallina transcription of configvalidator.go and of the configuration load path: every accepted configuration satisfies the documented rules conjunct by conjunct (single root without limits, valid unique names, quantities readable, each maximum within the maximum of every ancestor also through levels that leave a type undefined, guaranteed within maximum, saturating sum of children's guaranteed within the parent's guaranteed and maximum, max-applications non-increasing, limits within their queue); user/group limits are proved within the limit of every ancestor that names the user and within every ancestor's wildcard when none names it, the stronger documented reading is refuted with a witness accepted by the real code (known finding); placement rules are proved resolvable up to one refuted corner (known finding); loading an accepted configuration into a new or running scheduler is proved free of hierarchy/ACL/quantity/limit errors and of panics, and fully successful under the two side conditions that exclude the recorded findings (unbuildable placement rules, reload dropping a partition); accept/reject is proved independent of the order of every map of the configuration. Five defects found this way were repaired by fix: commits.",
+            note="theorems are about the hand-written model (coq/Conf); YAML decoding, regexp.Compile, float parsing of resource weights and the Go runtime are outside the model; the tie to the code is differential (250 generated documents per quick run + 30 pinned ones, each validated 3 times and in 2 permuted renderings, loaded twice); strings are modelled as ASCII bytes; one RM; reload is exercised on schedulers without applications (C16 covers running state)",
+            technique="Coq proof (induction over queue trees, relational proof for permutations) + model/implementation correspondence + oracle on implementation output"),
+        assumptions=[
+            "strings are ASCII (ToLower / TrimSpace / regexps are modelled on bytes < 128)",
+            "resource type names are non-empty and interned injectively by the harness (vcore = 0)",
+            "regexp.Compile of placement filter entries is an external predicate (table recorded by the harness); every theorem holds for any such predicate",
+            "partition names do not start with '['; the running scheduler of a reload has at least one partition and no applications",
+        ]),
 }
